@@ -6,6 +6,7 @@ import (
 	"fmt"
 	"testing"
 
+	"github.com/gebn/bmc"
 	"github.com/gebn/bmc/pkg/ipmi"
 	"pgregory.net/rapid"
 
@@ -275,6 +276,26 @@ type result struct {
 
 // runAttack opens a session, sends the command and attacks the first reply.
 func runAttack(t *rapid.T, c hx.Creds, cmdName string, a Attack, fixedDraw int) (r result, R []byte) {
+	return runAttackVia(t, c, cmdName, a, fixedDraw, nil)
+}
+
+// methods are the session's convenience methods (they may take their own route
+// to the transport); cmdName gives the catalogue entry whose BMC-side data and
+// reply they share.
+var methods = map[string]struct {
+	entry  string
+	invoke func(ctx context.Context, s *bmc.V2Session) error
+}{
+	"GetDeviceID()":      {"GetDeviceID", func(ctx context.Context, s *bmc.V2Session) error { _, err := s.GetDeviceID(ctx); return err }},
+	"GetChassisStatus()": {"GetChassisStatus", func(ctx context.Context, s *bmc.V2Session) error { _, err := s.GetChassisStatus(ctx); return err }},
+	"GetSystemGUID()":    {"GetSystemGUID", func(ctx context.Context, s *bmc.V2Session) error { _, err := s.GetSystemGUID(ctx); return err }},
+	"ChassisControl()": {"ChassisControl", func(ctx context.Context, s *bmc.V2Session) error {
+		return s.ChassisControl(ctx, ipmi.ChassisControlPowerCycle)
+	}},
+	"Close()": {"GetDeviceID", func(ctx context.Context, s *bmc.V2Session) error { return s.Close(ctx) }},
+}
+
+func runAttackVia(t *rapid.T, c hx.Creds, cmdName string, a Attack, fixedDraw int, invoke func(ctx context.Context, s *bmc.V2Session) error) (r result, R []byte) {
 	w := hx.NewWorldFor(c, true)
 	// a second user/session on the same BMC provides "another session's K1"
 	w.BMC.Users["other"] = []byte("otherpw")
@@ -325,6 +346,14 @@ func runAttack(t *rapid.T, c hx.Creds, cmdName string, a Attack, fixedDraw int) 
 	}
 	cctx, cancel := w.Ctx(6)
 	defer cancel()
+	if invoke != nil {
+		err := invoke(cctx, sess)
+		r.sends, r.err = w.Net.Sends-start, err
+		if err == nil && r.differs && r.sends < 2 {
+			r.msg = fmt.Sprintf("the call completed after a single transmission although the only reply delivered was not the authentic one")
+		}
+		return
+	}
 	code, err := sess.SendCommand(cctx, call.Cmd)
 	r.sends, r.err = w.Net.Sends-start, err
 	if err != nil {
@@ -430,10 +459,39 @@ func TestEnumerated(t *testing.T) {
 	ev.Label("enumeration-complete")
 }
 
+// TestHighLevelMethods: the forgery catalogue and a sample of bit flips against the
+// first reply to each convenience method of a session, Close included.
+func TestHighLevelMethods(t *testing.T) {
+	names := []string{"GetDeviceID()", "GetChassisStatus()", "GetSystemGUID()", "ChassisControl()", "Close()"}
+	n := 0
+	for _, name := range names {
+		m := methods[name]
+		for _, f := range forgeries {
+			for k := 0; k < ev.Pick(1, 6); k++ {
+				n++
+				suite := hx.Suites9()[(n+int(ev.Seed))%9]
+				c := hx.Creds{User: "admin", Password: []byte("pw"), Priv: 4, Suite: suite, Seed: uint64(ev.Seed)*4099 + uint64(n)}
+				a := Attack{Kind: "forge", Forge: f, Param: n*7 + k}
+				r, _ := runAttackVia(nil, c, m.entry, a, n+int(ev.Seed), m.invoke)
+				ev.Eval()
+				if r.msg != "" {
+					cs := map[string]any{"method": name, "suite": suite.String(), "attack": a.String()}
+					ev.Violation("TestHighLevelMethods", cs, r.msg)
+					t.Fatalf("%v: %s", cs, r.msg)
+				}
+				if r.differs {
+					ev.NonTrivial(fmt.Sprintf("hl|%s|%s|%d", name, f, k))
+				}
+			}
+		}
+		ev.Label("high-level:" + name)
+	}
+}
+
 func TestCoverage(t *testing.T) {
 	need := []string{"enumeration-complete", "attack:flip", "attack:cut"}
 	for _, f := range forgeries {
 		need = append(need, "attack:forge:"+f)
 	}
-	ev.RequireLabels(t, 1, need...)
+	ev.RequireLabels(t, 1, append(need, "high-level:Close()", "high-level:ChassisControl()")...)
 }
